@@ -156,6 +156,7 @@ func main() {
 	flag.Parse()
 	thorough := *tier == "thorough"
 	registry.LoadRegistry()
+	gen.NonUTF8 = true
 	custom, err := gen.RegisterCustom()
 	if err != nil {
 		panic(err)
